@@ -24,6 +24,11 @@ theorem take_tv (m : M4) : lsum (mtake m [2, 3, 6, 7, 8, 9, 12, 13]) = tvSum m :
 theorem take_all (m : M4) :
     lsum (mtake m (([11, 14] ++ [1, 4]) ++ [2, 3, 6, 7, 8, 9, 12, 13])) = purTs m + pyrTs m + tvSum m := by
   simp [lsum, mtake, tvSum, purTs, pyrTs]; ring
+theorem take_pyr' (m : M4) : lsum (mtake m [4, 1]) = pyrTs m := by
+  simp [lsum, mtake, pyrTs]
+theorem take_all' (m : M4) :
+    lsum (mtake m (([11, 14] ++ [4, 1]) ++ [2, 3, 6, 7, 8, 9, 12, 13])) = purTs m + pyrTs m + tvSum m := by
+  simp [lsum, mtake, tvSum, purTs, pyrTs]; ring
 theorem vt_sum (f : V4) (a b : Nat) : lsum (vtake f [a, b]) = f a + f b := by simp [lsum, vtake]
 theorem vt_prod (f : V4) (a b : Nat) : lprod (vtake f [a, b]) = f a * f b := by simp [lprod, vtake]
 
